@@ -10,6 +10,7 @@ require (
 	github.com/google/certificate-transparency-go v0.0.0
 	github.com/google/trillian v1.7.1
 	github.com/mattn/go-sqlite3 v1.14.26
+	github.com/transparency-dev/merkle v0.0.2
 	google.golang.org/grpc v1.71.1
 	google.golang.org/protobuf v1.36.6
 	k8s.io/klog/v2 v2.130.1
@@ -20,13 +21,14 @@ require (
 	filippo.io/edwards25519 v1.1.0 // indirect
 	github.com/go-logr/logr v1.4.2 // indirect
 	github.com/go-sql-driver/mysql v1.9.1 // indirect
+	github.com/golang/mock v1.6.0 // indirect
+	github.com/google/btree v1.1.3 // indirect
 	github.com/gorilla/mux v1.8.1 // indirect
 	github.com/hashicorp/golang-lru/v2 v2.0.7 // indirect
 	github.com/jackc/pgpassfile v1.0.0 // indirect
 	github.com/jackc/pgservicefile v0.0.0-20240606120523-5a60cdf6a761 // indirect
 	github.com/jackc/pgx/v5 v5.7.4 // indirect
 	github.com/jackc/puddle/v2 v2.2.2 // indirect
-	github.com/transparency-dev/merkle v0.0.2 // indirect
 	golang.org/x/crypto v0.36.0 // indirect
 	golang.org/x/net v0.38.0 // indirect
 	golang.org/x/sync v0.12.0 // indirect
